@@ -18,3 +18,5 @@ for c in $CHECKS; do
   echo "== ./check $c quick against the change:"
   (cd /verif && VERIF_EVID=/tmp/seedcheck-evid VERIF_REPO=$WT ./check $c quick 2>&1 | tail -4)
 done
+# regenerate the facts table from /repo itself (a VERIF_REPO run leaves the mutated tree's table behind)
+(cd /verif/harness && go build -tags verif -o /tmp/seedcheck-facts ./cmd/facts && /tmp/seedcheck-facts /repo > /verif/lean/ShootVerif/Gen/Facts.lean; rm -f /tmp/seedcheck-facts)
